@@ -17,6 +17,8 @@ func registerModelNatives(p *Program) {
 	R := p.replace
 	m := func(real, model string) { R[real] = modelPkg + "." + model }
 	m("crypto/md5.New", "MD5New")
+	m("bytes.Compare", "BytesCompare")
+	m("internal/bytealg.Compare", "BytesCompare")
 	m("context.Background", "ContextBackground")
 	m("context.TODO", "ContextBackground")
 	m("context.WithCancel", "ContextWithCancel")
